@@ -1027,7 +1027,12 @@ impl SvgElement {
     fn eval_size_attr(&self, name: &str, value: &str, ctx: &impl ElementMap) -> Result<String> {
         if let Ok(attr_ss) = ScalarSpec::from_str(name) {
             if let (Some(el), remain) = split_relspec(value, ctx)? {
-                if let Ok(Some(bbox)) = ctx.get_element_bbox(el) {
+                // The referenced element may not be laid out yet (or may never have
+                // a bbox); either way this attribute can't be resolved now.
+                let bbox = ctx
+                    .get_element_bbox(el)?
+                    .ok_or_else(|| SvgdxError::MissingBoundingBox(el.to_string()))?;
+                {
                     // default value - same 'type' as attr name, e.g. y2 => ymax
                     let mut v = bbox.scalarspec(attr_ss);
                     // "[~scalarspec][ delta]"
@@ -1048,9 +1053,10 @@ impl SvgElement {
     fn eval_pos_attr(&self, name: &str, value: &str, ctx: &impl ElementMap) -> Result<String> {
         if let Ok(attr_ss) = ScalarSpec::from_str(name) {
             if let (Some(el), remain) = split_relspec(value, ctx)? {
-                if let Ok(Some(bbox)) = ctx.get_element_bbox(el) {
-                    return self.pos_attr_helper(remain, &bbox, attr_ss);
-                }
+                let bbox = ctx
+                    .get_element_bbox(el)?
+                    .ok_or_else(|| SvgdxError::MissingBoundingBox(el.to_string()))?;
+                return self.pos_attr_helper(remain, &bbox, attr_ss);
             }
         }
         Ok(value.to_owned())
